@@ -21,7 +21,10 @@ RULE = ("class chains of C01 (aliases, private names, kw_only, init=False, conve
         "field's current one, the very object the original holds, a bad value, or a non-string SHAPE: field values "
         "(constructor arguments) may be instances of attrs classes -- two other classes, the class under test itself --, a "
         "dict or a list, and new values dicts (empty, keyed by init names / aliases of the nested instance's class or of "
-        "another class, by other names), lists or such instances; sometimes one name that is no key: unknown, a field's name where the alias "
+        "another class, by other names), lists or such instances; in ~30% of the classes the fields and explicit aliases "
+        "are renamed (injectively, harness-only: the model treats names as opaque strings) onto parameter / local names "
+        "used inside attrs's own functions -- inst, cls, changes, source, attrs (also the private _attrs), a, fields, "
+        "args, kwargs, k, v, new ... -- and such keys are usually part of the change set; sometimes one name that is no key: unknown, a field's name where the alias "
         "is wanted (or the alias where the name is wanted), an init=False field, a method / property / class constant of "
         "the class, an instance-dict extra, dunder names of attrs classes, names resolving on every tuple) x "
         "harness-only variation the model is independent of: about 15% of the leaves are declared with init=False and get a "
@@ -303,6 +306,49 @@ def _rename_fields(node, mapping):
             _rename_fields(v, mapping)
 
 
+# names attrs's own functions use for parameters and locals (evolve / assoc / fields / the carry-over loop): a field, or
+# the init alias of a field, may be called any of them -- evolve(*args, **changes) exists for exactly that reason
+INTERNAL_FIELD_NAMES = ["inst", "cls", "changes", "source", "attrs", "a", "fields", "attr_name", "init_name", "new", "k", "v",
+                        "value", "other", "obj", "instance", "target", "mapping", "result", "orig", "original", "kw"]
+INTERNAL_ALIAS_ONLY = ["args", "kwargs"]     # `args` is taken on exception classes as an attribute; as an alias it is free
+
+
+_INTERNAL_SET = set(INTERNAL_FIELD_NAMES + INTERNAL_ALIAS_ONLY)
+
+
+def internal_renaming(rng, p_each=0.6):
+    """an injective renaming of initbuild's field names AND explicit aliases onto names used inside attrs's own functions;
+    `_p` / `p` keep sharing their base (so the derived-alias clash gen_hspec repaired stays the same clash)"""
+    bases = ["x", "y", "z", "p", "a_b", "w"]
+    pool = rng.sample(INTERNAL_FIELD_NAMES, len(bases)) + \
+        rng.sample([n for n in INTERNAL_FIELD_NAMES + INTERNAL_ALIAS_ONLY], len(INTERNAL_FIELD_NAMES + INTERNAL_ALIAS_ONLY))
+    names, aliases, used = {}, {}, set()
+    for b in bases:
+        if rng.random() < p_each:
+            n = pool.pop(0)
+            used.add(n)
+            names[b] = n
+            if b == "p":
+                names["_p"] = "_" + n
+    for b in bases:
+        if rng.random() < p_each:
+            n = next(q for q in reversed(pool) if q not in used)
+            used.add(n)
+            aliases["al_" + b] = n
+    return names, aliases
+
+
+def _rename_aliases(node, mapping):
+    if isinstance(node, dict):
+        if "default" in node and node.get("alias") in mapping:
+            node["alias"] = mapping[node["alias"]]
+        for v in node.values():
+            _rename_aliases(v, mapping)
+    elif isinstance(node, list):
+        for v in node:
+            _rename_aliases(v, mapping)
+
+
 def layout_facts(inst):
     gs = getattr(type(inst), "__getstate__", None)
     return {"copyNeedsAll": getattr(gs, "__name__", None) == "slots_getstate"}
@@ -347,6 +393,14 @@ def gen_cases(tier, rng):
         if rng.random() < 0.12:
             # fields that are themselves named like attributes of every tuple: genuine fields all the same
             _rename_fields(h, {"w": "count", "z": "index"})
+        internal = False
+        if rng.random() < 0.3:
+            # fields / init aliases named like the parameters and locals of attrs's own functions (inst, cls, changes,
+            # source, attrs, a, fields, kwargs, args ...; a private `_attrs` has the alias `attrs`)
+            nm_, al_ = internal_renaming(rng)
+            _rename_fields(h, nm_)
+            _rename_aliases(h, al_)
+            internal = True
         for cs in h["classes"]:
             if cs["kind"] == "attrs" and not cs.get("cache_hash") and rng.random() < 0.4:
                 cs["unsafe_hash"] = True
@@ -413,6 +467,8 @@ def gen_cases(tier, rng):
                     op = "evolve"      # copying through a generated __getstate__ needs every field set (C10's precondition)
                 if op == "assoc" and (ib.run_in(h)[0]["cfg"]["isExc"] or h["classes"][0].get("exc_base")):
                     op = "evolve"
+                if op == "assoc" and internal and any("inst" in (f["name"], f.get("alias")) for f in fields):
+                    op = "evolve"      # assoc(inst, **changes) (deprecated) cannot take the name `inst`; evolve(*args, **changes) can
                 if op == "evolve":
                     keys = [(f.get("alias") or ib.default_alias(f["name"]), f["name"]) for f in init_fields]
                     # names evolve must refuse: a field's name where the alias differs, an init=False field
@@ -428,6 +484,11 @@ def gen_cases(tier, rng):
                     # a field that holds an attrs instance is usually part of the change set
                     if kf not in chosen and (curd.get(kf[1]) or "").startswith("inst:") and rng.random() < 0.6:
                         chosen.insert(rng.randint(0, len(chosen)), kf)
+                if internal:
+                    # a key that is a parameter / local name inside attrs is usually part of the change set
+                    for kf in keys:
+                        if kf not in chosen and kf[0] in _INTERNAL_SET and rng.random() < 0.5:
+                            chosen.insert(rng.randint(0, len(chosen)), kf)
                 if rng.random() < 0.2:
                     r = rng.random()
                     pool = TUPLE_NAMES if r < 0.25 else near if (r < 0.45 and near) else CLEAN_NAMES
@@ -694,6 +755,10 @@ def dist(case, obs):
                          else "dunder" if other[0].startswith("__") else "member/extra/unknown")
     d["unset_field"] = ("named" if any(curd.get(k, "") is None and k in fld for k, _ in case["changes"]) else
                         "present" if any(v is None for v in curd.values()) else "no")
+    # keys that are parameter / local names of attrs's own functions (inst, cls, changes, source, attrs, a, fields ...)
+    keyset = set(by_key)
+    d["attrs_internal_name"] = ("changed" if any(k in _INTERNAL_SET and k in by_key for k, _ in case["changes"]) else
+                                "carried" if keyset & _INTERNAL_SET else "no")
     d["plain_sub"] = case["hist"].get("plain_sub") or "no"
     # storage layout: where the instance's class keeps the changed fields
     cls_slots = case["base"]["run"]["cfg"]["slots"] if not case["hist"].get("plain_sub") else case["hist"]["plain_sub"] == "slots"
